@@ -242,7 +242,7 @@ func cmdCheck(args []string) {
 	os.RemoveAll(work)
 	vc.Discharge(obls, vc.SolveOpts{Timeout: timeout, Workers: 14, TmpDir: work, FailFast: 12})
 	// second chance: an obligation the portfolio did not decide (timeout / unknown, no counterexample) is tried
-	// again with a much longer timeout and few workers before it is reported; a loaded machine must not turn a
+	// again with a three times longer timeout before it is reported; a loaded machine must not turn a
 	// slow proof into an alarm. Obligations with a counterexample (sat) are not retried.
 	{
 		var again []*vc.Obligation
@@ -269,7 +269,7 @@ func cmdCheck(args []string) {
 			for _, o := range again {
 				o.Retried = true
 			}
-			vc.Discharge(again, vc.SolveOpts{Timeout: 6 * timeout, Workers: 8, TmpDir: work})
+			vc.Discharge(again, vc.SolveOpts{Timeout: 3 * timeout, Workers: 8, TmpDir: work})
 		}
 	}
 	// expected obligations
